@@ -3,7 +3,8 @@
 //! instruction list produced by the REAL `InstructionReader`, recompiles the same text `reps` times
 //! in this process and reports whether the images are identical, and optionally runs the program.
 //!
-//! case:   {"src": "...", "reps": n?, "run": bool?, "limit_ms": n?, "no_dump": bool?}
+//! case:   {"raw": [bytes]}  (the real reader on raw bytes)  or
+//!         {"src": "...", "reps": n?, "run": bool?, "limit_ms": n?, "no_dump": bool?}
 //! output: {"parse": "err"} | {"compile": "err", "msg": ".."} | {"panic": "..", "at": "..", "stage": ".."}
 //!       | {"bytes": [..], "nconsts": n, "kinds": "fis..", "instrs": [[ip, "Variant", {field: value}], ..],
 //!          "end_ip": ip, "reader_error": msg?, "img": "<hash of bytes + constants>", "det": bool,
@@ -202,7 +203,36 @@ fn compile(src: &str) -> Result<Chunk, String> {
     Compiler::compile(src, None, CompilerSettings::default()).map_err(|e| e.to_string())
 }
 
+/// {"raw": [bytes]}: what the real InstructionReader yields on these bytes (no compiler involved)
+fn raw_case(bytes: Vec<u8>) -> Value {
+    let chunk = Chunk { bytes, ..Default::default() };
+    let ptr = koto_memory::Ptr::from(chunk);
+    let dump = guarded(move || {
+        let mut reader = InstructionReader::new(ptr);
+        let mut instrs = vec![];
+        let mut reader_error = Value::Null;
+        loop {
+            let ip = reader.ip;
+            let Some(i) = reader.next() else { break };
+            let (name, fields) = instruction_to_json(&i);
+            if name == "Error" {
+                reader_error = json!([ip, fields["message"], reader.ip]);
+                break;
+            }
+            instrs.push(json!([ip, name, fields, reader.ip]));
+        }
+        json!({"instrs": instrs, "reader_error": reader_error, "end_ip": reader.ip})
+    });
+    match dump {
+        Ok(v) => v,
+        Err(msg) => json!({"reader_panic": [msg, last_panic_location()]}),
+    }
+}
+
 fn case(v: &Value) -> Value {
+    if let Some(raw) = v["raw"].as_array() {
+        return raw_case(raw.iter().map(|b| b.as_u64().unwrap_or(0) as u8).collect());
+    }
     let src = v["src"].as_str().unwrap_or("").to_string();
     let reps = v["reps"].as_u64().unwrap_or(1).max(1);
     let run = v["run"].as_bool().unwrap_or(false);
